@@ -198,6 +198,18 @@ Definition all_targets (k : kind) (s : st) : list Z :=
    (before fix 75c7076 belongs to + Unscoped + Clear failed with "no such column: tgts.id"). *)
 Definition step_err (k : kind) (s : st) (uo : bool * op) : bool := false.
 
+(* the links of the same tables that do NOT belong to the handle: other owners, and for polymorphic
+   relations the rows of other owner types (has-kinds: (target, owner); belongs to: (owner, target);
+   many2many: join rows) *)
+Definition others (k : kind) (os : list Z) (s : st) : list (Z * Z) :=
+  match k with
+  | KHasOne | KHasMany =>
+      flat_map (fun p => match snd p with Some o => if memz o os then [] else [(fst p, o)] | None => [] end) (rows s)
+  | KBelongs =>
+      flat_map (fun p => if memz (fst p) os then [] else match snd p with Some t => [(fst p, t)] | None => [] end) (rows s)
+  | KM2M => filter (fun j => negb (memz (fst j) os)) (joins s)
+  end.
+
 (* states after each operation of a history *)
 Fixpoint run (k : kind) (os : list Z) (s : st) (ops : list (bool * op)) : list (st * bool) :=
   match ops with
